@@ -14,7 +14,7 @@ CHECKS = {
     ),
     "C04": dict(
         level="fault_enumeration",
-        text="Reset as the injected crash/restart fault: for every generated coroutine design (4 reset kinds, objects with default / without default / noreset, on_reset actions) a fault-free run is recorded and the reset is then injected at EVERY clock position of that run (seeded duration; async resets also between edges and as pulses covering no edge; double resets), followed by fresh inputs. Checked per clock and after every reset change against the reference with the reset rule, plus a model-free metamorphic check: trace after release == trace of a power-up run. Enumeration is complete along each sampled run; runs and designs are sampled. Targets are also written through slices / bits, live in records created with the noreset wrapper, are tapped by an inout port of a sub-entity, and the context may be derived with or_reset / and_reset from one that already has a reset (two reset pins, per-fault choice of the asserted sources).",
+        text="Reset as the injected crash/restart fault: for every generated coroutine design (4 reset kinds, objects with default / without default / noreset, on_reset actions) a fault-free run is recorded and the reset is then injected at EVERY clock position of that run (seeded duration; async resets also between edges and as pulses covering no edge; double resets), followed by fresh inputs. Checked per clock and after every reset change against the reference with the reset rule, plus a model-free metamorphic check: trace after release == trace of a power-up run. Enumeration is complete along each sampled run; runs and designs are sampled. Targets are also written through slices / bits, live in records created with the noreset wrapper, are tapped by an inout port of a sub-entity, and the context may be derived with or_reset / and_reset from one that already has a reset (two reset pins, per-fault choice of the asserted sources). A fifth of the programs without on_reset derive their context with with_params(reset=...) from a base context that has another reset (second pin) or none: only the replacement resets.",
         note="Trusted: VSIM, the coroutine reference and its reset rule; reset never changes at the active edge instant; recorded runs <= 110 clocks.",
         technique="deterministic simulation with reset-fault enumeration at every clock position of sampled runs; reference model + power-up equivalence",
         ref="6/C04",
@@ -22,7 +22,7 @@ CHECKS = {
     "C11": dict(
         level="fault_enumeration",
         engine="session",
-        text="The compiler session is the simulated system: each run executes one history of compilations in a fork of a pristine interpreter started under a chosen PYTHONHASHSEED. The injected fault is the rejected compilation (a real user error planted at marked sites of valid designs so that the exception unwinds from every pipeline stage). For EVERY planted rejection the history [reject, then every valid and context-invalid design twice in seeded order] is run (thorough: also every adjacent (rejection, design) pair and 8 orders per rejection), plus sampled histories of 12-40 operations and goldens across 8 (thorough 32) hash seeds. Oracle: every compile in a history has the outcome (bytes or rejection) of the same source compiled alone in a fresh fork. Enumeration is over the catalogue; the catalogue itself is finite and hand-written.",
+        text="The compiler session is the simulated system: each run executes one history of compilations in a fork of a pristine interpreter started under a chosen PYTHONHASHSEED. The injected fault is the rejected compilation (a real user error planted at marked sites of valid designs so that the exception unwinds from every pipeline stage). For EVERY planted rejection the history [reject, then every valid and context-invalid design twice in seeded order] is run (thorough: also every adjacent (rejection, design) pair and 8 orders per rejection), plus sampled histories of 12-40 operations and goldens across 8 (thorough 32) hash seeds. Oracle: every compile in a history has the outcome (bytes or rejection) of the same source compiled alone in a fresh fork. Enumeration is over the catalogue; the catalogue itself is finite and hand-written. Group V runs every ordered pair of valid designs adjacent once without any rejection (seeded Euler circuit cut into histories of 64 compilations): a successful compilation is history too.",
         note="Trusted: fork() isolation of the pristine interpreter, the design pool / planted-error catalogue (vf/gen/pool.py). Exceptions no design can provoke are out of scope. fork does not scale across processes in this VM, hence long histories rather than many.",
         technique="deterministic simulation of compile histories with rejected-compilation faults in forked pristine interpreters per hash seed; fresh-interpreter oracle",
         ref="6/C11",
@@ -30,14 +30,14 @@ CHECKS = {
     "C13": dict(
         level="exploration",
         engine="session",
-        text="History exploration without a clock: each run forks a pristine interpreter (so first use really is first; flavours with and without cohdl.std imported; 4 hash seeds) and executes a seeded history of type requests in arbitrary order and repetition, failing requests as injected faults, object / view creation (slices, indices, iteration, typed views, views of views) and writes through views. After EVERY operation an identity / lattice / bit-array model is compared: same parameters -> identical class, issubclass for ALL pairs of classes created so far, isinstance for all objects, view root / canonical view type / value read through every view, and the code-generation reference of every view names the same bits as the Python alias. Views are also 'formatted like the back end' (RefSpec.simplify) with all views re-checked, ascending ranges are requested as types, and a sample of compiled expressions with view operations is simulated (emitted-code view cases).",
+        text="History exploration without a clock: each run forks a pristine interpreter (so first use really is first; flavours with and without cohdl.std imported; 4 hash seeds) and executes a seeded history of type requests in arbitrary order and repetition, failing requests as injected faults, object / view creation (slices, indices, iteration, typed views, views of views) and writes through views. After EVERY operation an identity / lattice / bit-array model is compared: same parameters -> identical class, issubclass for ALL pairs of classes created so far, isinstance for all objects, view root / canonical view type / value read through every view, and the code-generation reference of every view names the same bits as the Python alias. Views are also 'formatted like the back end' (RefSpec.simplify) with all views re-checked, ascending ranges are requested as types, and a sample of compiled expressions with view operations is simulated (emitted-code view cases). A sixth of the type histories contain a flood of 40..1100 distinct parametrisations of one family, after which the first, the last and all earlier classes are requested again and must be the identical objects.",
         note="Sequential, model-based end of the technique: the explored nondeterminism is operation order, failed operations and hash seed. Only 'downto' vectors. Trusted: the lattice model written from the statement.",
         technique="seeded history simulation (order of first use, failing requests, hash seed) in forked pristine interpreters; refinement of an identity/lattice/bit-array model after every step",
         ref="6/C13",
     ),
     "C15": dict(
         level="exploration",
-        text="Wrapper entities around std.SyncFlag / std.Mailbox (all 16 tx/rx delay pairs, one process or two contexts, consumer as plain function / await receive() / async with / Mailbox.receive, guarded and unguarded set, with and without reset: 262 configurations) are compiled by the real compiler and run in VSIM under seeded producer/consumer agents (unique payloads), stalls of either context through its step condition (uniform and aligned to the delay line right after a set/clear), resets mid hand-over, process order and input offsets. An event-history oracle is evaluated while the run proceeds: every effective set consumed exactly once, in order, payload unmodified; a set while set has no effect; no second effective set while one is outstanding; no consumption without an outstanding set; is_set/is_clear complementary; bounded progress once faults stop. Consumer styles include a consumer that clears in every willing step, a with-body with a conditional return inside a sub-coroutine, and mb.receive() inside an after-executor.",
+        text="Wrapper entities around std.SyncFlag / std.Mailbox (all 16 tx/rx delay pairs, one process or two contexts, consumer as plain function / await receive() / async with / Mailbox.receive, guarded and unguarded set, with and without reset: 262 configurations) are compiled by the real compiler and run in VSIM under seeded producer/consumer agents (unique payloads), stalls of either context through its step condition (uniform and aligned to the delay line right after a set/clear), resets mid hand-over, process order and input offsets. An event-history oracle is evaluated while the run proceeds: every effective set consumed exactly once, in order, payload unmodified; a set while set has no effect; no second effective set while one is outstanding; no consumption without an outstanding set; is_set/is_clear complementary; bounded progress once faults stop. Consumer styles include a consumer that clears in every willing step, a with-body with a conditional return inside a sub-coroutine, and mb.receive() inside an after-executor. Burst consumers (two receives back to back, receive followed by async-with, two Mailbox receives) observe each hand-over on its own port: two observations in one clock are two consumed events.",
         note="Trusted: VSIM, the agents, the history oracle. One clock for both contexts. Bounded progress uses 2*(tx+rx)+8 clocks.",
         technique="deterministic simulation of emitted VHDL with seeded agents and stall/reset fault injection; exactly-once event-history oracle + bounded liveness",
         ref="6/C15",
@@ -51,14 +51,14 @@ CHECKS = {
     ),
     "C16": dict(
         level="exploration",
-        text="Wrapper entities around std.wait_for / Waiter.wait_for (constant, run-time, Duration, zero with allow_zero), DelayLine / delayed, continuous_counter, ClockDivider and ToggleSignal (constant and run-time periods, first_state / default_state / tick_at_start / require_enable, enable / disable) and debounce (314 configurations) are compiled by the real compiler and run in VSIM; every output is compared with a per-step reference model after EVERY clock. Schedule and fault space: the instant a wait is reached, run-time values changing after they were sampled, enable/disable instants, bouncing inputs, resets mid-wait, stalls through the step condition (a stalled clock is not a step), process order, input offsets.",
+        text="Wrapper entities around std.wait_for / Waiter.wait_for (constant, run-time, Duration, zero with allow_zero), DelayLine / delayed, continuous_counter, ClockDivider and ToggleSignal (constant and run-time periods, first_state / default_state / tick_at_start / require_enable, enable / disable) and debounce (543 configurations) are compiled by the real compiler and run in VSIM; every output is compared with a per-step reference model after EVERY clock. Schedule and fault space: the instant a wait is reached, run-time values changing after they were sampled, enable/disable instants, bouncing inputs, resets mid-wait, stalls through the step condition (a stalled clock is not a step), process order, input offsets. Every configuration runs below no reset, a synchronous reset and an asynchronous reset, always with a run-time step condition.",
         note="Trusted: VSIM and the per-step models (written from the .pyi documentation, phase conventions calibrated on the unchanged tree). Preconditions (period >= 1) are kept by the stimulus.",
         technique="deterministic simulation of emitted VHDL with seeded reach instants and stall/reset faults; per-clock comparison with cycle-exact reference models",
         ref="6/C16",
     ),
     "C03": dict(
         level="exploration",
-        text="Seeded deterministic simulation: generated designs with 1-3 contexts (clocked sequential, concurrent, unclocked sequential with inferred sensitivity) chained through signals; bodies use <<= / .next on whole signals, slices, bits and run-time indexed array elements, @= / .value on Unsigned, Bit and bool variables, ^= / .push, local names that alias or snapshot variables, if/elif/else, match with and without default, for-break chains with and without else, a helper function with returns in nested branches, `with cohdl.always:` and cohdl.always(expr). Compiled by the real CoHDL, executed in VSIM under seeded process order, input offsets (pre/post/glitch) and stimulus (single-input changes for the sensitivity monitor) with the read-before-write monitor on; every output compared every clock with an interpreter of the statement. Clocked contexts optionally carry an (inactive) Reset and a run-time step condition; the grammar includes helpers with several return paths (values and booleans), for-loops ending in return, for-break chains with empty iterations and empty ranges, matches listing every value of their selector, if-expressions over conditions and run-time-indexed bits (also in hoisted always code).",
+        text="Seeded deterministic simulation: generated designs with 1-3 contexts (clocked sequential, concurrent, unclocked sequential with inferred sensitivity) chained through signals; bodies use <<= / .next on whole signals, slices, bits and run-time indexed array elements, @= / .value on Unsigned, Bit and bool variables, ^= / .push, local names that alias or snapshot variables, if/elif/else, match with and without default, for-break chains with and without else, a helper function with returns in nested branches, `with cohdl.always:` and cohdl.always(expr). Compiled by the real CoHDL, executed in VSIM under seeded process order, input offsets (pre/post/glitch) and stimulus (single-input changes for the sensitivity monitor) with the read-before-write monitor on; every output compared every clock with an interpreter of the statement. Clocked contexts optionally carry an (inactive) Reset and a run-time step condition; the grammar includes helpers with several return paths (values and booleans), for-loops ending in return, for-break chains with empty iterations and empty ranges, matches listing every value of their selector, if-expressions over conditions and run-time-indexed bits (also in hoisted always code). A third of the pushes use the explicit-mode form std.assign(target, value, AssignMode.PUSH) that std aggregates forward their ^= to.",
         note="Trusted: VSIM, the reference interpreter (written from the statement; aliasing of plain name bindings calibrated), program size <= 12 statements per context / depth 3, 4-bit data, runs <= 200 clocks. Illegal VHDL is left to C06.",
         technique="deterministic simulation of emitted VHDL (seeded scheduler, input offsets, stimulus) vs executable reference model of the assignment semantics",
         ref="6/C03",
@@ -72,7 +72,7 @@ CHECKS = {
     ),
     "C07": dict(
         level="exploration",
-        text="Placement workload: 49 hand-written placements of the writers / readers of an object across contexts of every kind (two sequential, sequential + concurrent, two concurrent, whole / slice / bit / element / typed-view targets, ^= and .next forms, always-expressions, sub-entity instance outputs incl. two instances and one instance with two outputs, input ports at top level and inside a sub-entity, variables and intermediates shared between contexts, reset interplay). Placements with more than one writer must be rejected by the compiler; accepted designs are elaborated in VSIM (static driver map per scalar sub-element, process variables confined to their process) and simulated 40 clocks with a reset pulse under seeded stimulus and process order with the dynamic driver monitor (a conflict that only shows when both drivers are active). The catalogue also covers contexts built with the core API, contexts created several times by the same source lines (helpers, loops, std.concurrent_assign), cohdl.always code (run-time indices, variables) and inline VHDL (also nested).",
+        text="Placement workload: 49 hand-written placements of the writers / readers of an object across contexts of every kind (two sequential, sequential + concurrent, two concurrent, whole / slice / bit / element / typed-view targets, ^= and .next forms, always-expressions, sub-entity instance outputs incl. two instances and one instance with two outputs, input ports at top level and inside a sub-entity, variables and intermediates shared between contexts, reset interplay). Placements with more than one writer must be rejected by the compiler; accepted designs are elaborated in VSIM (static driver map per scalar sub-element, process variables confined to their process) and simulated 40 clocks with a reset pulse under seeded stimulus and process order with the dynamic driver monitor (a conflict that only shows when both drivers are active). The catalogue also covers contexts built with the core API, contexts created several times by the same source lines (helpers, loops, std.concurrent_assign), cohdl.always code (run-time indices, variables) and inline VHDL (also nested). A same-name family: distinct objects given the same user name (lower / mixed / upper case, names that differ in case only) keep their own declaration and their single driver.",
         note="Trusted: the placement catalogue and its expected outcomes (counted from the statement), VSIM's driver bookkeeping. Unexpected rejections are counted, not flagged.",
         technique="enumerated writer placements compiled by the real compiler; deterministic simulation of accepted designs with static + dynamic driver monitors",
         ref="6/C07",
@@ -86,21 +86,21 @@ CHECKS = {
     ),
     "C12": dict(
         level="exploration",
-        text="A seeded instantiation tree (depth <= 3, fan-out <= 3, shared templates, node logic combinational / registered / accumulating / slice-assembling / instantiating a leaf through a helper called inside a concurrent context, derived entity classes inheriting their ports) is rendered twice from the same tree: as a hierarchy of entities (actuals: whole signals, parent ports, slices, an instance output connected to a slice of a parent signal with a default) and inline in one architecture. Both are compiled by the real compiler and co-simulated in VSIM under the same stimulus with independent seeded process orders; all outputs must agree after every clock as raw std_logic values. Structural checks on the hierarchical text: emitted interface == declared ports (names, directions, types, order), every template emitted exactly once, sub-entities before their users. Trees reuse templates across depths, pass keyword arguments in seeded order, derive entity classes that add ports, read inout ports and tap a node's own output port; an entity used before it is emitted and an ill-typed port association are violations of this property.",
+        text="A seeded instantiation tree (depth <= 3, fan-out <= 3, shared templates, node logic combinational / registered / accumulating / slice-assembling / instantiating a leaf through a helper called inside a concurrent context, derived entity classes inheriting their ports) is rendered twice from the same tree: as a hierarchy of entities (actuals: whole signals, parent ports, slices, an instance output connected to a slice of a parent signal with a default) and inline in one architecture. Both are compiled by the real compiler and co-simulated in VSIM under the same stimulus with independent seeded process orders; all outputs must agree after every clock as raw std_logic values. Structural checks on the hierarchical text: emitted interface == declared ports (names, directions, types, order), every template emitted exactly once, sub-entities before their users. Trees reuse templates across depths, pass keyword arguments in seeded order, derive entity classes that add ports, read inout ports and tap a node's own output port; an entity used before it is emitted and an ill-typed port association are violations of this property. Instances created directly in a context take the whole expression result, a slice of a wider result or a typed view of the result as actual.",
         note="Trusted: VSIM, the two renderers of one tree. Trees that use a typed view of an Unsigned signal as actual are emitted as illegal VHDL (known C06 finding) and are not explored.",
         technique="deterministic co-simulation of two replicas (hierarchical vs inline) of generated designs under identical stimulus and independent seeded process orders; replica agreement + structural checks",
         ref="6/C12",
     ),
     "C02": dict(
         level="exploration",
-        text="Thin (DESIGN 1): typed expression trees over Bit / BitVector / Unsigned / Signed operands with every operator of the statement (+ - * truncdiv % rem with vector and int operands in either position, & | ^ ~, all comparisons incl. chained, shifts by constant and by Unsigned, @, constant and run-time index, slices, .signed/.unsigned/.bitvector, resize, abs / neg, and / or / not, if-expressions, select_with, any / all) drive one output from a concurrent and one from a clocked context. The operand valuations are applied as a sequence (all valuations when <= 10 operand bits, seeded order; corners + random otherwise) under seeded process order with the read-before-write monitor on: the concurrent output must equal f(current operands) after settling, the clocked output f(operands at the edge). Oracle: an independent integer model of the documented width / extension / wrap rules. Each expression is also compiled into further clocked contexts: run-time-indexed elements bound to names before their index variable changes, a named slice-of-slice view used next to its cast, one operand read through a Signal constructed inside the process; chains of 3-4 comparisons with constants anywhere, boolean constants in any/all, comparisons with Null/Full and widening constructor conversions are part of the grammar.",
+        text="Thin (DESIGN 1): typed expression trees over Bit / BitVector / Unsigned / Signed operands with every operator of the statement (+ - * truncdiv % rem with vector and int operands in either position, & | ^ ~, all comparisons incl. chained, shifts by constant and by Unsigned, @, constant and run-time index, slices, .signed/.unsigned/.bitvector, resize, abs / neg, and / or / not, if-expressions, select_with, any / all) drive one output from a concurrent and one from a clocked context. The operand valuations are applied as a sequence (all valuations when <= 10 operand bits, seeded order; corners + random otherwise) under seeded process order with the read-before-write monitor on: the concurrent output must equal f(current operands) after settling, the clocked output f(operands at the edge). Oracle: an independent integer model of the documented width / extension / wrap rules. Each expression is also compiled into further clocked contexts: run-time-indexed elements bound to names before their index variable changes, a named slice-of-slice view used next to its cast, one operand read through a Signal constructed inside the process; chains of 3-4 comparisons with constants anywhere, boolean constants in any/all, comparisons with Null/Full and widening constructor conversions are part of the grammar. A third of the concatenations take one constant object (Unsigned / Signed / BitVector) as operand.",
         note="What the simulator adds is independence from process order and from the operand history; the search over shapes and values is plain seeded input generation. Preconditions (non-zero divisors, in-range indices) are kept by construction; rejections are counted, not flagged.",
         technique="deterministic simulation of emitted VHDL over seeded operand sequences and process orders vs independent integer model (input generation for shapes/values)",
         ref="6/C02",
     ),
     "C05": dict(
         level="exploration",
-        text="Thin: 5643 enumerated cases (source type x target type over Bit and BitVector/Unsigned/Signed[1,2,3,4,7,8], int / Null / Full / bool / str literals) x assignment form (<<=, .next, @=, .value, ^=, .push, slice target, array element, typed-view targets on signals and variables, if-expression merge, function-return merge, initialisation, port connection). Cases the statement says must be rejected have to be rejected by the compiler; accepted cases are simulated over ALL source values under seeded process order and the target must hold the represented value (zero / sign extension, bit copy); an accepted case whose VHDL fails a type/width rule of the elaborator is flagged. Sources are plain ports, typed views of ports, of signals / variables constructed inside the process, and operator results; both branches of every merge (if-expression, multi-return helper) are exercised, also with Null / Full as the other branch.",
+        text="Thin: 5643 enumerated cases (source type x target type over Bit and BitVector/Unsigned/Signed[1,2,3,4,7,8], int / Null / Full / bool / str literals) x assignment form (<<=, .next, @=, .value, ^=, .push, slice target, array element, typed-view targets on signals and variables, if-expression merge, function-return merge, initialisation, port connection). Cases the statement says must be rejected have to be rejected by the compiler; accepted cases are simulated over ALL source values under seeded process order and the target must hold the represented value (zero / sign extension, bit copy); an accepted case whose VHDL fails a type/width rule of the elaborator is flagged. Sources are plain ports, typed views of ports, of signals / variables constructed inside the process, and operator results; both branches of every merge (if-expression, multi-return helper) are exercised, also with Null / Full as the other branch. Declarations with an initial value inside the process (Variable[T](src), Signal[T](src), Temporary[T](src)) are assignment forms of the matrix too.",
         note="The accept/reject half is decided at compile time (plain enumeration). Forms and pairs the statement does not list are 'either rejected or value preserving'. Known finding: equal-width BitVector<->Unsigned/Signed port connections are emitted without type conversion.",
         technique="enumerated conversion cases compiled by the real compiler; accepted ones simulated exhaustively over source values (seeded order / process order) vs the statement's conversion matrix",
         ref="6/C05",
